@@ -125,7 +125,7 @@ def run(chk):
                       f"{consts['xvalue'] + consts['fenced_string'] + 10}", {"consts": consts}, no_input=True)
 
     # ------------------------------------------------------------------ (A) accounting driven directly
-    n_traces = 1000 if quick else 60000
+    n_traces = 600 if quick else 60000
     traces = [gen_trace(rng) for _ in range(n_traces)]
     reqs = [{"op": "alloc", "f": "trace", "limit": lim, "events": evs} for lim, evs in traces]
     cs = f"{consts['xvalue']},{consts['bigint']},{consts['fenced_string']},{consts['usize']},{consts['rc']},{consts['vec']}"
@@ -376,7 +376,7 @@ def run(chk):
         if quick:
             pts = {0, 1, lib_base // 2, lib_base - 1, lib_base, lib_base + 1, final - 1, final, final + 1, need - 2, need - 1, need, need + 1, need + 100, HUGE}
             span = list(range(max(0, lib_base - 64), need + 1))
-            pts |= set(rng.sample(span, min(len(span), 20)))
+            pts |= set(rng.sample(span, min(len(span), 12)))
         else:
             # every limit near the library baseline and in the last 1200 bytes below the program's need (where the failure
             # walks through the program's own allocations), every 5th limit in between
@@ -422,7 +422,7 @@ def run(chk):
         sweep_stats[name] = {"final_bytes": final, "least_passing_limit": need, "limits_tried": len(pts), "passing": n_pass, "failing": n_fail}
     chk.coverage["sweeps"] = sweep_stats
     chk.coverage["exhaustive"] = "thorough: every limit within 300 bytes of the library baseline and from (least passing limit - 1200) to (least passing limit + 40), every 5th limit in between, for every program" if not quick else \
-        "quick: ~40 limits per program (0, 1, around the library baseline, around the program's final size, around its least passing limit, 20 sampled in between)"
+        "quick: ~40 limits per program (0, 1, around the library baseline, around the program's final size, around its least passing limit, 12 sampled in between)"
     chk.sample({"sweep": "ints", "src": PROGRAMS["ints"]})
 
     return chk.finish(rule="(A) random event traces of allocate / managed values / drops / pre-flights on a runtime with and without a limit; "
